@@ -49,7 +49,7 @@ func clockSub(prop string) *engine.Sub {
 	return &engine.Sub{
 		Name:   name,
 		Serial: true,
-		Rule:   "E7: every time.Now() of the library is a choice point of the explorer (build overlay: time.Now -> verifshim/clock). Two-link chains, correctly aligned or with one deviation (broken link, wrong subject, wrong first audience, root not issued by its subject; for C02: the leaf or the root link grants a narrower command than the one passed on below it), one token (leaf, root or invocation) carrying one bound B (nbf or exp); every sequence of clock readings over {B-1s, B-1ns, B+1ns, B+1s}, starting at each of them - time passing or being stepped back between the readings one check takes; both APIs. C01, C02: a chain with a deviation is never allowed, whatever the clock does. C04: a check none of whose readings lies inside the window is not allowed. C05: a check all of whose readings lie inside the window of a conforming chain is allowed; non-trivial = executions in which two readings differ",
+		Rule:   "E7: every time.Now() of the library is a choice point of the explorer (build overlay: time.Now -> verifshim/clock). Two-link chains, correctly aligned or with one deviation (broken link, wrong subject, wrong first audience, root not issued by its subject; for C02: the leaf or the root link grants a narrower command than the one passed on below it), one token (leaf, root or invocation) carrying one bound B (nbf or exp); every sequence of clock readings over {B-1s, B-1ns, B+1ns, B+1s}, starting at each of them - time passing or being stepped back between the readings one check takes; both APIs. C01, C02: a chain with a deviation is never allowed, whatever the clock does. C04: a check none of whose readings lies inside the window is not allowed - also when the chain has two windows that never overlap (leaf or invocation expiring at B, root active from B on: no reading is inside both). C05: a check all of whose readings lie inside the window of a conforming chain is allowed; non-trivial = executions in which two readings differ",
 		Bound: func(string) string {
 			return "5 deviations (C02: 2) x 5 (bound, token) placements x 4 first readings x all reading sequences (4 options per reading) x 2 APIs"
 		},
@@ -63,7 +63,11 @@ func clockSub(prop string) *engine.Sub {
 				devs = []string{"cmdLeaf", "cmdRoot"}
 			}
 			for _, dev := range devs {
-				for _, bo := range [][2]any{{"nbf", 0}, {"nbf", 1}, {"exp", 0}, {"exp", 1}, {"exp", 2}} {
+				bos := [][2]any{{"nbf", 0}, {"nbf", 1}, {"exp", 0}, {"exp", 1}, {"exp", 2}}
+				if prop == "C04" {
+					bos = append(bos, [2]any{"split", 0}, [2]any{"split", 2})
+				}
+				for _, bo := range bos {
 					for st := 0; st < 4; st++ {
 						if !emit(&clockCase{Dev: dev, Bound: bo[0].(string), On: bo[1].(int), Start: st}) {
 							return
@@ -76,6 +80,7 @@ func clockSub(prop string) *engine.Sub {
 		Run: func(ctx *engine.Ctx, c any) {
 			cs := c.(*clockCase)
 			menu := clockMenu()
+			li, la, ls, ri := 1, 2, 0, 0
 			mk := func(iss, aud, sub int, on bool, cmd string) *delegation.Token {
 				var opts []delegation.Option
 				if on && cs.Bound == "nbf" {
@@ -84,9 +89,16 @@ func clockSub(prop string) *engine.Sub {
 				if on && cs.Bound == "exp" {
 					opts = append(opts, delegation.WithExpiration(clockB))
 				}
+				// "split": two windows that never overlap - the token named by On (leaf or invocation) expires at B, the root
+				// becomes active at B: there is no instant at which the whole chain is valid
+				if cs.Bound == "split" && on {
+					opts = append(opts, delegation.WithExpiration(clockB))
+				}
+				if cs.Bound == "split" && iss == ri && aud == 1 && !on {
+					opts = append(opts, delegation.WithNotBefore(clockB))
+				}
 				return mustDlg(iss, aud, sub, cmd, nil, opts...)
 			}
-			li, la, ls, ri := 1, 2, 0, 0
 			lcmd, rcmd := "/a", "/a"
 			switch cs.Dev {
 			case "link":
@@ -113,8 +125,11 @@ func clockSub(prop string) *engine.Sub {
 				panic(err)
 			}
 			inside := func(t time.Time) bool {
-				if cs.Bound == "nbf" {
+				switch cs.Bound {
+				case "nbf":
 					return t.After(clockB)
+				case "split":
+					return false // before B the root is not active yet, after B the other token has expired
 				}
 				return t.Before(clockB)
 			}
